@@ -1119,6 +1119,8 @@ class Frame(object):
         t = self.cond_text(test, st)
         if t in self.sc.axioms:
             return self.sc.axioms[t]
+        if t in ('True', 'False'):           # the test evaluated to a decided boolean (e.g. a scenario fact answered in value position)
+            return t == 'True'
         if self.sc.oracle is not None and not isinstance(test, ast.BoolOp) and \
                 not (isinstance(test, ast.UnaryOp) and isinstance(test.op, ast.Not)):
             o = self.sc.oracle(t)
@@ -1653,6 +1655,16 @@ class Frame(object):
         d = self.decide(node, st) if len(node.ops) == 1 else None
         if d is not None:
             return Const(d)
+        if len(node.ops) > 1:
+            # a < b < c is (a < b) and (b < c): decided when every link is
+            links, left = [], node.left
+            for op, c in zip(node.ops, node.comparators):
+                links.append(self._compare(ast.Compare(left=left, ops=[op], comparators=[c]), st))
+                left = c
+            if any(x is False for x in links):
+                return Const(False)
+            if all(x is True for x in links):
+                return Const(True)
         parts = [self.text(node.left, st)]
         for op, c in zip(node.ops, node.comparators):
             parts.append(OPS[type(op)])
@@ -1728,7 +1740,9 @@ class Frame(object):
                     return Const(f(a, b))
             except Exception:
                 pass
-        return Sym('(%s %s %s)' % (render(l), OPS[type(op)], render(r)))
+        lt, rt = render(l), render(r)
+        lt, rt = ['(%s)' % t if t.startswith('not ') else t for t in (lt, rt)]       # `a & (not b)` must not render as `a & not b`
+        return Sym('(%s %s %s)' % (lt, OPS[type(op)], rt))
 
     def ev_Subscript(self, node, st):
         base = self.ev(node.value, st)
@@ -2059,7 +2073,11 @@ class Frame(object):
                 except Exception:
                     pass
             if n == 'isinstance' and len(node.args) == 2:
-                d = self._isinstance(node.args[0], node.args[1], st)
+                d = None
+                if self.sc.oracle is not None:       # a scenario fact about this test holds in value position too
+                    d = self.sc.oracle('isinstance(%s)' % ', '.join(render(a) for a in args))
+                if d is None:
+                    d = self._isinstance(node.args[0], node.args[1], st)
                 if d is not None:
                     return Const(d)
             if n == 'range':
